@@ -495,6 +495,9 @@ class DataFrameSchemaBackend(PandasSchemaBackend):
         # series is relatively slow due to copying the index for
         # each one. Coerce dtypes afterwards instead.
         for c in missing_obj.columns:
+            if missing_cols_schema[c].dtype is None:
+                # no declared data type: the default value as it is
+                continue
             try:
                 missing_obj[c] = missing_cols_schema[c].dtype.try_coerce(
                     missing_obj[c]
